@@ -173,6 +173,10 @@ def encode_forms(data, form):
         return data
     if form == 'hex':
         return data.hex()
+    if form == 'HEX':
+        return data.hex().upper()
+    if form == 'hEx':
+        return ''.join(c.upper() if i % 3 == 0 else c for i, c in enumerate(data.hex()))
     if form == 'b64':
         return base64.b64encode(data).decode()
     raise ValueError(form)
